@@ -1,1 +1,350 @@
-//! C15 harnesses (not written yet).
+//! C15 — parsing accepts exactly binary / hex digit strings and inverts formatting.
+//!
+//! Strings have a concrete number of characters per harness (a symbolic `String` length
+//! explodes, see HARNESS_GUIDE cost rule 2); their characters are symbolic: every ASCII byte
+//! at every position, plus one symbolic 2- or 3-byte UTF-8 character at a symbolic position
+//! in the multi-byte families. The oracle scans the same bytes: index of the first character
+//! that is not a digit, and the value denoted by the digits (most significant first).
+//! Results are inspected on their raw storage, so the *length* fixed by leading zeros and the
+//! cleanliness of padding are part of the verdict (the test-suite compares values only).
+use crate::big::Big;
+use crate::nd;
+use crate::scopes::*;
+use bva::{Bit, BitVector, Bv, Bvd, Bvf, ConvertionError};
+
+const NOCAP: usize = usize::MAX;
+
+/// `n` symbolic ASCII bytes (every 7-bit value).
+macro_rules! ascii {
+    ($n:literal) => {{
+        let mut b = [0u8; $n];
+        let mut i = 0;
+        while i < $n {
+            let c = nd::u8();
+            nd::assume(c < 128);
+            b[i] = c;
+            i += 1;
+        }
+        b
+    }};
+}
+
+/// What a scan of the characters says: index of the first non-digit (`n` if none), the value
+/// of the digit string, and whether lower / upper case letters occur.
+#[derive(Clone, Copy)]
+pub struct Scan {
+    pub bad: usize,
+    pub val: Big,
+    pub lower: bool,
+    pub upper: bool,
+}
+
+#[inline(always)]
+pub fn scan_bin(b: &[u8], n: usize) -> Scan {
+    let mut s = Scan { bad: n, val: Big::ZERO, lower: false, upper: false };
+    let mut i = 0;
+    while i < n {
+        let c = b[i];
+        if c == b'0' || c == b'1' {
+            s.val = s.val.shl(1).or(Big::lo((c - b'0') as u128));
+        } else if s.bad == n {
+            s.bad = i;
+        }
+        i += 1;
+    }
+    s
+}
+
+#[inline(always)]
+pub fn scan_hex(b: &[u8], n: usize) -> Scan {
+    let mut s = Scan { bad: n, val: Big::ZERO, lower: false, upper: false };
+    let mut i = 0;
+    while i < n {
+        let c = b[i];
+        let d = if c >= b'0' && c <= b'9' {
+            c - b'0'
+        } else if c >= b'a' && c <= b'f' {
+            s.lower = true;
+            c - b'a' + 10
+        } else if c >= b'A' && c <= b'F' {
+            s.upper = true;
+            c - b'A' + 10
+        } else {
+            255
+        };
+        if d < 16 {
+            s.val = s.val.shl(4).or(Big::lo(d as u128));
+        } else if s.bad == n {
+            s.bad = i;
+        }
+        i += 1;
+    }
+    s
+}
+
+/// Verdict on one parse result. `nchars` characters, `bits` bits per character, `bad` = index
+/// of the first offending character (`nchars` if none), `val` = value of the digit string.
+macro_rules! judge {
+    ($r:expr, $nchars:expr, $bits:literal, $cap:expr, $bad:expr, $val:expr) => {{
+        let fits = $nchars * $bits <= $cap;
+        match $r {
+            Ok(x) => {
+                let rr = x.into_raw();
+                assert!($bad == $nchars, "C15: a string with an offending character was accepted");
+                assert!(fits, "C15: a string longer than the fixed capacity was accepted");
+                assert!(rr.len == $nchars * $bits, "C15: result length != number of characters (x4 for hex)");
+                assert!(rr.v == $val, "C15: result storage != value of the digit string (first character most significant)");
+                assert!(rr.len <= rr.cap, "C15: len > capacity");
+            }
+            Err(ConvertionError::InvalidFormat(i)) => {
+                assert!($bad < $nchars, "C15: an all-digit string was rejected as InvalidFormat");
+                // too long *and* invalid: the property leaves the kind of error open
+                assert!(!fits || i == $bad, "C15: InvalidFormat index is not the first offending character");
+            }
+            Err(ConvertionError::NotEnoughCapacity) => {
+                assert!(!fits, "C15: NotEnoughCapacity for a string that fits");
+            }
+        }
+    }};
+}
+
+/// ASCII strings of `$n` characters.
+macro_rules! h_parse {
+    ($name:ident, $unw:literal, $T:ty, $f:ident, $scan:ident, $bits:literal, $n:literal, $cap:expr) => {
+        harness!($name, $unw, {
+            let b = ascii!($n);
+            let sc = $scan(&b[..], $n);
+            // ASCII bytes are valid UTF-8
+            let s: &str = unsafe { std::str::from_utf8_unchecked(&b[..]) };
+            w!(sc.bad == $n, "every character is a digit");
+            w!($n == 0 || (sc.bad == $n && b.first() == Some(&b'0')), "all digits with a leading zero (or empty string)");
+            w!($n == 0 || sc.bad + 1 == $n, "only the last character offends (or empty string)");
+            w!($n == 0 || sc.bad == 0, "the first character offends (or empty string)");
+            w!($n < 2 || $bits == 1 || (sc.bad == $n && sc.lower && sc.upper), "mixed-case hex digits (hex strings of two or more characters)");
+            let r = <$T>::$f(s);
+            judge!(r, $n, $bits, $cap, sc.bad, sc.val);
+        });
+    };
+}
+
+/// `$n` symbolic ASCII characters with one symbolic `$w`-byte UTF-8 character inserted at a
+/// symbolic character position `p` (`$nb = $n + $w` bytes, `$n + 1` characters).
+macro_rules! h_parse_mb {
+    ($name:ident, $unw:literal, $T:ty, $f:ident, $scan:ident, $bits:literal, $n:literal, $w:literal, $nb:literal, $cap:expr) => {
+        harness!($name, $unw, {
+            let a = ascii!($n);
+            let p = nd::upto($n);
+            // U+0080..U+07FF, resp. U+1000..U+CFFF: always well-formed
+            let mb: [u8; 3] = if $w == 2 {
+                [0xC2 + nd::upto(0x1D) as u8, 0x80 + nd::upto(0x3F) as u8, 0]
+            } else {
+                [0xE1 + nd::upto(0x0B) as u8, 0x80 + nd::upto(0x3F) as u8, 0x80 + nd::upto(0x3F) as u8]
+            };
+            assert!($nb == $n + $w, "HARNESS: byte count");
+            let mut b = [0u8; $nb];
+            let mut j = 0;
+            while j < $nb {
+                b[j] = if j < p {
+                    a[j]
+                } else if j < p + $w {
+                    mb[j - p]
+                } else {
+                    a[j - $w]
+                };
+                j += 1;
+            }
+            let sc = $scan(&a[..], $n);
+            let bad = if sc.bad < p { sc.bad } else { p };
+            let s: &str = unsafe { std::str::from_utf8_unchecked(&b[..]) };
+            w!(bad == p && p == $n, "multi-byte character last, everything before it a digit");
+            w!(bad == p && p == 0, "multi-byte character first");
+            w!($n == 0 || bad < p, "an ASCII non-digit precedes the multi-byte character (or no ASCII at all)");
+            w!($n < 2 || (bad == p && p > 0 && p < $n), "multi-byte character in the middle of digits (three or more characters)");
+            let r = <$T>::$f(s);
+            judge!(r, ($n + 1), $bits, $cap, bad, Big::ZERO);
+        });
+    };
+}
+
+/// `parse(format(v))` asserted directly: the real formatting machinery produces the string
+/// (its length is symbolic: leading zeros are stripped), the real parser reads it back.
+/// Concrete vector length, symbolic contents.
+macro_rules! h_fmt_parse {
+    ($name:ident, $unw:literal, $T:ty, $a:expr, $fmt:literal, $f:ident) => {
+        harness!($name, $unw, {
+            let (a, ra) = $a;
+            w!(ra.v.is_zero(), "zero (formats as a single 0)");
+            w!(ra.len == 0 || ra.v.bit(ra.len - 1), "top bit set: as many digits as the length allows (or empty)");
+            w!(ra.len < 2 || (!ra.v.is_zero() && !ra.v.bit(ra.len - 1)), "non-zero with leading zeros stripped (or len < 2)");
+            let s = format!($fmt, a);
+            match <$T>::$f(&s) {
+                Ok(x) => {
+                    let rr = x.into_raw();
+                    assert!(rr.v == ra.v, "C15: parse(format(v)) differs in value from v");
+                    assert!(rr.len <= rr.cap, "C15: len > capacity");
+                }
+                Err(_) => assert!(false, "C15: the formatted output of a vector was rejected"),
+            }
+        });
+    };
+}
+
+// ==== from_binary, ASCII ======================================================================
+h_parse!(c15_q_bin_f8x1_n0, 3, Bvf<u8, 1>, from_binary, scan_bin, 1, 0, 8);
+h_parse!(c15_q_bin_f8x1_n1, 4, Bvf<u8, 1>, from_binary, scan_bin, 1, 1, 8);
+h_parse!(c15_q_bin_f8x1_n7, 10, Bvf<u8, 1>, from_binary, scan_bin, 1, 7, 8);
+h_parse!(c15_q_bin_f8x1_n8, 11, Bvf<u8, 1>, from_binary, scan_bin, 1, 8, 8);
+h_parse!(c15_q_bin_f8x1_n9, 12, Bvf<u8, 1>, from_binary, scan_bin, 1, 9, 8);
+h_parse!(c15_q_bin_f8x1_n10, 13, Bvf<u8, 1>, from_binary, scan_bin, 1, 10, 8);
+h_parse!(c15_t_bin_f8x1_n2, 5, Bvf<u8, 1>, from_binary, scan_bin, 1, 2, 8);
+h_parse!(c15_t_bin_f8x1_n3, 6, Bvf<u8, 1>, from_binary, scan_bin, 1, 3, 8);
+h_parse!(c15_t_bin_f8x1_n4, 7, Bvf<u8, 1>, from_binary, scan_bin, 1, 4, 8);
+h_parse!(c15_t_bin_f8x1_n5, 8, Bvf<u8, 1>, from_binary, scan_bin, 1, 5, 8);
+h_parse!(c15_t_bin_f8x1_n6, 9, Bvf<u8, 1>, from_binary, scan_bin, 1, 6, 8);
+h_parse!(c15_q_bin_f8x2_n0, 3, Bvf<u8, 2>, from_binary, scan_bin, 1, 0, 16);
+h_parse!(c15_q_bin_f8x2_n1, 4, Bvf<u8, 2>, from_binary, scan_bin, 1, 1, 16);
+h_parse!(c15_q_bin_f8x2_n8, 11, Bvf<u8, 2>, from_binary, scan_bin, 1, 8, 16);
+h_parse!(c15_q_bin_f8x2_n9, 12, Bvf<u8, 2>, from_binary, scan_bin, 1, 9, 16);
+h_parse!(c15_q_bin_f8x2_n15, 18, Bvf<u8, 2>, from_binary, scan_bin, 1, 15, 16);
+h_parse!(c15_q_bin_f8x2_n16, 19, Bvf<u8, 2>, from_binary, scan_bin, 1, 16, 16);
+h_parse!(c15_q_bin_f8x2_n17, 20, Bvf<u8, 2>, from_binary, scan_bin, 1, 17, 16);
+h_parse!(c15_q_bin_f8x2_n18, 21, Bvf<u8, 2>, from_binary, scan_bin, 1, 18, 16);
+h_parse!(c15_t_bin_f8x2_n2, 5, Bvf<u8, 2>, from_binary, scan_bin, 1, 2, 16);
+h_parse!(c15_t_bin_f8x2_n3, 6, Bvf<u8, 2>, from_binary, scan_bin, 1, 3, 16);
+h_parse!(c15_t_bin_f8x2_n4, 7, Bvf<u8, 2>, from_binary, scan_bin, 1, 4, 16);
+h_parse!(c15_t_bin_f8x2_n5, 8, Bvf<u8, 2>, from_binary, scan_bin, 1, 5, 16);
+h_parse!(c15_t_bin_f8x2_n6, 9, Bvf<u8, 2>, from_binary, scan_bin, 1, 6, 16);
+h_parse!(c15_t_bin_f8x2_n7, 10, Bvf<u8, 2>, from_binary, scan_bin, 1, 7, 16);
+h_parse!(c15_t_bin_f8x2_n10, 13, Bvf<u8, 2>, from_binary, scan_bin, 1, 10, 16);
+h_parse!(c15_t_bin_f8x2_n11, 14, Bvf<u8, 2>, from_binary, scan_bin, 1, 11, 16);
+h_parse!(c15_t_bin_f8x2_n12, 15, Bvf<u8, 2>, from_binary, scan_bin, 1, 12, 16);
+h_parse!(c15_t_bin_f8x2_n13, 16, Bvf<u8, 2>, from_binary, scan_bin, 1, 13, 16);
+h_parse!(c15_t_bin_f8x2_n14, 17, Bvf<u8, 2>, from_binary, scan_bin, 1, 14, 16);
+h_parse!(c15_q_bin_f8x3_n24, 27, Bvf<u8, 3>, from_binary, scan_bin, 1, 24, 24);
+h_parse!(c15_q_bin_f8x3_n25, 28, Bvf<u8, 3>, from_binary, scan_bin, 1, 25, 24);
+h_parse!(c15_t_bin_f8x3_n17, 20, Bvf<u8, 3>, from_binary, scan_bin, 1, 17, 24);
+h_parse!(c15_t_bin_f8x3_n23, 26, Bvf<u8, 3>, from_binary, scan_bin, 1, 23, 24);
+h_parse!(c15_q_bin_f16x1_n15, 18, Bvf<u16, 1>, from_binary, scan_bin, 1, 15, 16);
+h_parse!(c15_q_bin_f16x1_n16, 19, Bvf<u16, 1>, from_binary, scan_bin, 1, 16, 16);
+h_parse!(c15_q_bin_f16x1_n17, 20, Bvf<u16, 1>, from_binary, scan_bin, 1, 17, 16);
+h_parse!(c15_t_bin_f16x1_n1, 4, Bvf<u16, 1>, from_binary, scan_bin, 1, 1, 16);
+h_parse!(c15_q_bin_f16x2_n17, 20, Bvf<u16, 2>, from_binary, scan_bin, 1, 17, 32);
+h_parse!(c15_q_bin_f16x2_n32, 35, Bvf<u16, 2>, from_binary, scan_bin, 1, 32, 32);
+h_parse!(c15_q_bin_f16x2_n33, 36, Bvf<u16, 2>, from_binary, scan_bin, 1, 33, 32);
+h_parse!(c15_t_bin_f16x2_n16, 19, Bvf<u16, 2>, from_binary, scan_bin, 1, 16, 32);
+h_parse!(c15_t_bin_f16x2_n31, 34, Bvf<u16, 2>, from_binary, scan_bin, 1, 31, 32);
+h_parse!(c15_t_bin_f64x2_n63, 66, Bvf<u64, 2>, from_binary, scan_bin, 1, 63, 128);
+h_parse!(c15_t_bin_f64x2_n64, 67, Bvf<u64, 2>, from_binary, scan_bin, 1, 64, 128);
+h_parse!(c15_t_bin_f64x2_n65, 68, Bvf<u64, 2>, from_binary, scan_bin, 1, 65, 128);
+h_parse!(c15_t_bin_f64x2_n127, 130, Bvf<u64, 2>, from_binary, scan_bin, 1, 127, 128);
+h_parse!(c15_t_bin_f64x2_n128, 131, Bvf<u64, 2>, from_binary, scan_bin, 1, 128, 128);
+h_parse!(c15_t_bin_f64x2_n129, 132, Bvf<u64, 2>, from_binary, scan_bin, 1, 129, 128);
+h_parse!(c15_t_bin_fuszx2_n65, 68, Bvf<usize, 2>, from_binary, scan_bin, 1, 65, 128);
+h_parse!(c15_t_bin_f128x1_n20, 23, Bvf<u128, 1>, from_binary, scan_bin, 1, 20, 128);
+h_parse!(c15_q_bin_bvd_n0, 3, Bvd, from_binary, scan_bin, 1, 0, NOCAP);
+h_parse!(c15_q_bin_bvd_n1, 4, Bvd, from_binary, scan_bin, 1, 1, NOCAP);
+h_parse!(c15_q_bin_bvd_n8, 11, Bvd, from_binary, scan_bin, 1, 8, NOCAP);
+h_parse!(c15_t_bin_bvd_n63, 66, Bvd, from_binary, scan_bin, 1, 63, NOCAP);
+h_parse!(c15_t_bin_bvd_n64, 67, Bvd, from_binary, scan_bin, 1, 64, NOCAP);
+h_parse!(c15_t_bin_bvd_n65, 68, Bvd, from_binary, scan_bin, 1, 65, NOCAP);
+h_parse!(c15_t_bin_bvd_n128, 131, Bvd, from_binary, scan_bin, 1, 128, NOCAP);
+h_parse!(c15_t_bin_bvd_n129, 132, Bvd, from_binary, scan_bin, 1, 129, NOCAP);
+h_parse!(c15_q_bin_bv_n0, 3, Bv, from_binary, scan_bin, 1, 0, NOCAP);
+h_parse!(c15_q_bin_bv_n5, 8, Bv, from_binary, scan_bin, 1, 5, NOCAP);
+h_parse!(c15_t_bin_bv_n64, 67, Bv, from_binary, scan_bin, 1, 64, NOCAP);
+h_parse!(c15_t_bin_bv_n127, 130, Bv, from_binary, scan_bin, 1, 127, NOCAP);
+h_parse!(c15_t_bin_bv_n128, 131, Bv, from_binary, scan_bin, 1, 128, NOCAP);
+h_parse!(c15_t_bin_bv_n129, 132, Bv, from_binary, scan_bin, 1, 129, NOCAP);
+// ==== from_hex, ASCII =========================================================================
+h_parse!(c15_q_hex_f8x1_n0, 3, Bvf<u8, 1>, from_hex, scan_hex, 4, 0, 8);
+h_parse!(c15_q_hex_f8x1_n1, 4, Bvf<u8, 1>, from_hex, scan_hex, 4, 1, 8);
+h_parse!(c15_q_hex_f8x1_n2, 5, Bvf<u8, 1>, from_hex, scan_hex, 4, 2, 8);
+h_parse!(c15_q_hex_f8x1_n3, 6, Bvf<u8, 1>, from_hex, scan_hex, 4, 3, 8);
+h_parse!(c15_q_hex_f8x1_n4, 7, Bvf<u8, 1>, from_hex, scan_hex, 4, 4, 8);
+h_parse!(c15_q_hex_f8x2_n0, 3, Bvf<u8, 2>, from_hex, scan_hex, 4, 0, 16);
+h_parse!(c15_q_hex_f8x2_n1, 4, Bvf<u8, 2>, from_hex, scan_hex, 4, 1, 16);
+h_parse!(c15_q_hex_f8x2_n2, 5, Bvf<u8, 2>, from_hex, scan_hex, 4, 2, 16);
+h_parse!(c15_q_hex_f8x2_n3, 6, Bvf<u8, 2>, from_hex, scan_hex, 4, 3, 16);
+h_parse!(c15_q_hex_f8x2_n4, 7, Bvf<u8, 2>, from_hex, scan_hex, 4, 4, 16);
+h_parse!(c15_q_hex_f8x2_n5, 8, Bvf<u8, 2>, from_hex, scan_hex, 4, 5, 16);
+h_parse!(c15_q_hex_f8x3_n5, 8, Bvf<u8, 3>, from_hex, scan_hex, 4, 5, 24);
+h_parse!(c15_q_hex_f8x3_n6, 9, Bvf<u8, 3>, from_hex, scan_hex, 4, 6, 24);
+h_parse!(c15_q_hex_f8x3_n7, 10, Bvf<u8, 3>, from_hex, scan_hex, 4, 7, 24);
+h_parse!(c15_q_hex_f16x1_n0, 3, Bvf<u16, 1>, from_hex, scan_hex, 4, 0, 16);
+h_parse!(c15_q_hex_f16x1_n3, 6, Bvf<u16, 1>, from_hex, scan_hex, 4, 3, 16);
+h_parse!(c15_q_hex_f16x1_n4, 7, Bvf<u16, 1>, from_hex, scan_hex, 4, 4, 16);
+h_parse!(c15_q_hex_f16x1_n5, 8, Bvf<u16, 1>, from_hex, scan_hex, 4, 5, 16);
+h_parse!(c15_t_hex_f16x1_n1, 4, Bvf<u16, 1>, from_hex, scan_hex, 4, 1, 16);
+h_parse!(c15_t_hex_f16x1_n2, 5, Bvf<u16, 1>, from_hex, scan_hex, 4, 2, 16);
+h_parse!(c15_q_hex_f16x2_n5, 8, Bvf<u16, 2>, from_hex, scan_hex, 4, 5, 32);
+h_parse!(c15_q_hex_f16x2_n8, 11, Bvf<u16, 2>, from_hex, scan_hex, 4, 8, 32);
+h_parse!(c15_q_hex_f16x2_n9, 12, Bvf<u16, 2>, from_hex, scan_hex, 4, 9, 32);
+h_parse!(c15_t_hex_f16x2_n3, 6, Bvf<u16, 2>, from_hex, scan_hex, 4, 3, 32);
+h_parse!(c15_t_hex_f16x2_n4, 7, Bvf<u16, 2>, from_hex, scan_hex, 4, 4, 32);
+h_parse!(c15_t_hex_f64x2_n15, 18, Bvf<u64, 2>, from_hex, scan_hex, 4, 15, 128);
+h_parse!(c15_t_hex_f64x2_n16, 19, Bvf<u64, 2>, from_hex, scan_hex, 4, 16, 128);
+h_parse!(c15_t_hex_f64x2_n17, 20, Bvf<u64, 2>, from_hex, scan_hex, 4, 17, 128);
+h_parse!(c15_t_hex_f64x2_n32, 35, Bvf<u64, 2>, from_hex, scan_hex, 4, 32, 128);
+h_parse!(c15_t_hex_f64x2_n33, 36, Bvf<u64, 2>, from_hex, scan_hex, 4, 33, 128);
+h_parse!(c15_t_hex_f32x2_n9, 12, Bvf<u32, 2>, from_hex, scan_hex, 4, 9, 64);
+h_parse!(c15_t_hex_f32x2_n16, 19, Bvf<u32, 2>, from_hex, scan_hex, 4, 16, 64);
+h_parse!(c15_t_hex_f32x2_n17, 20, Bvf<u32, 2>, from_hex, scan_hex, 4, 17, 64);
+h_parse!(c15_q_hex_bvd_n0, 3, Bvd, from_hex, scan_hex, 4, 0, NOCAP);
+h_parse!(c15_q_hex_bvd_n1, 4, Bvd, from_hex, scan_hex, 4, 1, NOCAP);
+h_parse!(c15_t_hex_bvd_n15, 18, Bvd, from_hex, scan_hex, 4, 15, NOCAP);
+h_parse!(c15_t_hex_bvd_n16, 19, Bvd, from_hex, scan_hex, 4, 16, NOCAP);
+h_parse!(c15_t_hex_bvd_n17, 20, Bvd, from_hex, scan_hex, 4, 17, NOCAP);
+h_parse!(c15_t_hex_bvd_n33, 36, Bvd, from_hex, scan_hex, 4, 33, NOCAP);
+h_parse!(c15_q_hex_bv_n0, 3, Bv, from_hex, scan_hex, 4, 0, NOCAP);
+h_parse!(c15_q_hex_bv_n3, 6, Bv, from_hex, scan_hex, 4, 3, NOCAP);
+h_parse!(c15_t_hex_bv_n16, 19, Bv, from_hex, scan_hex, 4, 16, NOCAP);
+h_parse!(c15_t_hex_bv_n31, 34, Bv, from_hex, scan_hex, 4, 31, NOCAP);
+h_parse!(c15_t_hex_bv_n32, 35, Bv, from_hex, scan_hex, 4, 32, NOCAP);
+h_parse!(c15_t_hex_bv_n33, 36, Bv, from_hex, scan_hex, 4, 33, NOCAP);
+// ==== one multi-byte character at a symbolic position ===============================================
+h_parse_mb!(c15_q_binmb2_f8x1_n0, 5, Bvf<u8, 1>, from_binary, scan_bin, 1, 0, 2, 2, 8);
+h_parse_mb!(c15_q_binmb2_f8x1_n3, 8, Bvf<u8, 1>, from_binary, scan_bin, 1, 3, 2, 5, 8);
+h_parse_mb!(c15_q_binmb2_f8x1_n7, 12, Bvf<u8, 1>, from_binary, scan_bin, 1, 7, 2, 9, 8);
+h_parse_mb!(c15_q_binmb2_f8x1_n8, 13, Bvf<u8, 1>, from_binary, scan_bin, 1, 8, 2, 10, 8);
+h_parse_mb!(c15_t_binmb2_f8x1_n9, 14, Bvf<u8, 1>, from_binary, scan_bin, 1, 9, 2, 11, 8);
+h_parse_mb!(c15_q_binmb3_f8x1_n3, 9, Bvf<u8, 1>, from_binary, scan_bin, 1, 3, 3, 6, 8);
+h_parse_mb!(c15_q_binmb3_f8x1_n7, 13, Bvf<u8, 1>, from_binary, scan_bin, 1, 7, 3, 10, 8);
+h_parse_mb!(c15_t_binmb3_f8x1_n0, 6, Bvf<u8, 1>, from_binary, scan_bin, 1, 0, 3, 3, 8);
+h_parse_mb!(c15_t_binmb3_f8x1_n8, 14, Bvf<u8, 1>, from_binary, scan_bin, 1, 8, 3, 11, 8);
+h_parse_mb!(c15_q_binmb2_f8x2_n5, 10, Bvf<u8, 2>, from_binary, scan_bin, 1, 5, 2, 7, 16);
+h_parse_mb!(c15_q_binmb2_f8x2_n15, 20, Bvf<u8, 2>, from_binary, scan_bin, 1, 15, 2, 17, 16);
+h_parse_mb!(c15_q_binmb2_f8x2_n16, 21, Bvf<u8, 2>, from_binary, scan_bin, 1, 16, 2, 18, 16);
+h_parse_mb!(c15_t_binmb2_f8x2_n0, 5, Bvf<u8, 2>, from_binary, scan_bin, 1, 0, 2, 2, 16);
+h_parse_mb!(c15_t_binmb2_f8x2_n17, 22, Bvf<u8, 2>, from_binary, scan_bin, 1, 17, 2, 19, 16);
+h_parse_mb!(c15_q_binmb3_f8x2_n15, 21, Bvf<u8, 2>, from_binary, scan_bin, 1, 15, 3, 18, 16);
+h_parse_mb!(c15_t_binmb3_f8x2_n5, 11, Bvf<u8, 2>, from_binary, scan_bin, 1, 5, 3, 8, 16);
+h_parse_mb!(c15_t_binmb3_f8x2_n16, 22, Bvf<u8, 2>, from_binary, scan_bin, 1, 16, 3, 19, 16);
+h_parse_mb!(c15_q_hexmb2_f8x1_n0, 5, Bvf<u8, 1>, from_hex, scan_hex, 4, 0, 2, 2, 8);
+h_parse_mb!(c15_q_hexmb2_f8x1_n1, 6, Bvf<u8, 1>, from_hex, scan_hex, 4, 1, 2, 3, 8);
+h_parse_mb!(c15_q_hexmb2_f8x1_n2, 7, Bvf<u8, 1>, from_hex, scan_hex, 4, 2, 2, 4, 8);
+h_parse_mb!(c15_t_hexmb2_f8x1_n3, 8, Bvf<u8, 1>, from_hex, scan_hex, 4, 3, 2, 5, 8);
+h_parse_mb!(c15_q_hexmb2_f8x2_n3, 8, Bvf<u8, 2>, from_hex, scan_hex, 4, 3, 2, 5, 16);
+h_parse_mb!(c15_q_hexmb2_f8x2_n4, 9, Bvf<u8, 2>, from_hex, scan_hex, 4, 4, 2, 6, 16);
+h_parse_mb!(c15_t_hexmb2_f8x2_n0, 5, Bvf<u8, 2>, from_hex, scan_hex, 4, 0, 2, 2, 16);
+h_parse_mb!(c15_q_hexmb3_f8x2_n3, 9, Bvf<u8, 2>, from_hex, scan_hex, 4, 3, 3, 6, 16);
+h_parse_mb!(c15_t_hexmb3_f8x2_n0, 6, Bvf<u8, 2>, from_hex, scan_hex, 4, 0, 3, 3, 16);
+h_parse_mb!(c15_t_hexmb3_f8x2_n4, 10, Bvf<u8, 2>, from_hex, scan_hex, 4, 4, 3, 7, 16);
+h_parse_mb!(c15_q_hexmb3_f16x1_n2, 8, Bvf<u16, 1>, from_hex, scan_hex, 4, 2, 3, 5, 16);
+h_parse_mb!(c15_t_hexmb3_f16x1_n3, 9, Bvf<u16, 1>, from_hex, scan_hex, 4, 3, 3, 6, 16);
+h_parse_mb!(c15_t_hexmb3_f16x1_n4, 10, Bvf<u16, 1>, from_hex, scan_hex, 4, 4, 3, 7, 16);
+h_parse_mb!(c15_t_binmb2_f64x2_n127, 132, Bvf<u64, 2>, from_binary, scan_bin, 1, 127, 2, 129, 128);
+h_parse_mb!(c15_t_binmb2_f64x2_n128, 133, Bvf<u64, 2>, from_binary, scan_bin, 1, 128, 2, 130, 128);
+h_parse_mb!(c15_t_binmb2_bvd_n0, 5, Bvd, from_binary, scan_bin, 1, 0, 2, 2, NOCAP);
+h_parse_mb!(c15_t_binmb2_bvd_n7, 12, Bvd, from_binary, scan_bin, 1, 7, 2, 9, NOCAP);
+h_parse_mb!(c15_t_binmb2_bvd_n64, 69, Bvd, from_binary, scan_bin, 1, 64, 2, 66, NOCAP);
+h_parse_mb!(c15_t_binmb2_bv_n4, 9, Bv, from_binary, scan_bin, 1, 4, 2, 6, NOCAP);
+h_parse_mb!(c15_t_binmb2_bv_n127, 132, Bv, from_binary, scan_bin, 1, 127, 2, 129, NOCAP);
+h_parse_mb!(c15_t_binmb2_bv_n128, 133, Bv, from_binary, scan_bin, 1, 128, 2, 130, NOCAP);
+h_parse_mb!(c15_t_binmb3_bv_n126, 132, Bv, from_binary, scan_bin, 1, 126, 3, 129, NOCAP);
+h_parse_mb!(c15_t_hexmb2_bv_n31, 36, Bv, from_hex, scan_hex, 4, 31, 2, 33, NOCAP);
+h_parse_mb!(c15_t_hexmb2_bv_n32, 37, Bv, from_hex, scan_hex, 4, 32, 2, 34, NOCAP);
+// ==== parse(format(v)) directly (everything else follows from C14's digit strings + the oracle above)
+h_fmt_parse!(c15_t_fmtparse_bin_f8x2_l5, 9, Bvf<u8, 2>, f8x2(5), "{:b}", from_binary);
+h_fmt_parse!(c15_t_fmtparse_bin_f8x2_l10, 14, Bvf<u8, 2>, f8x2(10), "{:b}", from_binary);
+h_fmt_parse!(c15_t_fmtparse_hex_f8x2_l7, 6, Bvf<u8, 2>, f8x2(7), "{:x}", from_hex);
+h_fmt_parse!(c15_t_fmtparse_uhex_f8x2_l9, 7, Bvf<u8, 2>, f8x2(9), "{:X}", from_hex);
